@@ -1,23 +1,26 @@
-"""Import round-3 sub-agent changes: the property is named on the first line of notes-<i>.txt (PROPERTY: Cxx)."""
+"""Import sub-agent changes whose property is named on the first line of notes-<i>.txt (PROPERTY: Cxx).
+usage: import_round3.py <tag, e.g. r3 or r4> <dir prefix, e.g. /tmp/o3-> <group> [<group> ...]"""
 import os, re, subprocess, sys, shutil
 V = os.path.dirname(os.path.dirname(os.path.abspath(__file__)))
+tag, prefix, groups = sys.argv[1], sys.argv[2], sys.argv[3:]
 jobs = []
-for g in sys.argv[1:]:
+for g in groups:
     for letter in "abc":
-        notes = "/tmp/o3-%s/notes-%s.txt" % (g, letter)
+        src = "%s%s" % (prefix, g)
+        notes = "%s/notes-%s.txt" % (src, letter)
         if not os.path.exists(notes):
             continue
         m = re.search(r"PROPERTY:\s*(C\d\d)", open(notes).read())
         if not m:
-            print("no property in", notes); continue
+            print("no property in", notes)
+            continue
         prop = m.group(1)
-        # stage under a per-job source dir so that import_seeded can be reused
-        stage = "/tmp/o3stage-%s%s-%s" % (g, letter, prop)
-        os.makedirs(stage + prop, exist_ok=True)   # import_seeded appends the property to SEEDED_SRC
+        stage = "/tmp/ostage-%s%s-" % (g, letter)      # import_seeded appends the property to SEEDED_SRC
+        os.makedirs(stage + prop, exist_ok=True)
         for a, b in (("mutant", "diff"), ("demo", "py"), ("notes", "txt")):
-            shutil.copy("/tmp/o3-%s/%s-%s.%s" % (g, a, letter, b), "%s%s/%s-%s.%s" % (stage, prop, a, letter, b))
+            shutil.copy("%s/%s-%s.%s" % (src, a, letter, b), "%s%s/%s-%s.%s" % (stage, prop, a, letter, b))
         jobs.append((stage, prop, letter, g))
 for stage, prop, letter, g in jobs:
-    env = dict(os.environ, SEEDED_SRC=stage, SEEDED_TAG="r3g%s" % g)
+    env = dict(os.environ, SEEDED_SRC=stage, SEEDED_TAG="%sg%s" % (tag, g))
     subprocess.run(["/venv/bin/python", os.path.join(V, "tools", "import_seeded.py"), prop, letter], env=env)
     shutil.rmtree(stage + prop, ignore_errors=True)
